@@ -107,8 +107,10 @@ func genC08(r *Rnd, t Tier) *Case {
 	switch src {
 	case SrcCtxCancel:
 		op.Ctx = pick(r, CtxCancel, CtxCancelValue)
+		op.CtxCause = r.P(0.3)
 	case SrcCtxDeadline:
 		op.Ctx = CtxDeadline
+		op.CtxCause = r.P(0.3)
 		op.CtxD = time.Duration(r.Range(0, 60))*unit + time.Duration(r.Range(-1, 1))
 		if op.CtxD < 0 {
 			op.CtxD = 0
